@@ -187,7 +187,7 @@ Section MixS.
 
   Theorem mixS_main : forall g gs fuel pub cn tn sels at_ tv top nested out pub' k l N,
     fuel <= F -> parse_type_def fuel C S frs pub cn tn sels at_ [] tv = Ok (out, pub', false) ->
-    sels_okM g true C S frs top nested tn tn sels = true -> sels_strictM gs C S frs nested tn sels = true ->
+    sels_okM g true C S frs top at_ tn tn sels = true -> sels_strictM gs C S frs nested tn sels = true ->
     (at_ = true -> has_typename sels = true) ->
     tv = (if nested then Some [tn] else None) -> table_ok cls out ->
     collect k S frs tn false sels = Some l -> incl l N -> ambS N ->
@@ -237,7 +237,7 @@ Section MixS.
                                          field_facts_rev C S frs (Wn n') tn f pf) fns pfl).
     { apply Forall2_forall. intros n' Hn'. destruct n' as [|n1]; [lia|].
       eapply level_facts_rev with (W := Wn (Datatypes.S n1)) (mro := mro_fields n1 cls)
-                                  (ok := sels_okM g true C S frs true true)
+                                  (ok := sels_okM g true C S frs true)
                                   (strict := sels_strictM gs' C S frs true)
                                   (fuel' := fuel') (g := g) (cs := cls);
         try eassumption.
@@ -310,11 +310,11 @@ Section MixS.
       rewrite <- Ekm. eapply (NoDup_map_inj_in (py_field_name C) (map n_key N)); eauto.
       - rewrite B1. change (field_key fb0) with (n_key (node_of_fnode false fb0)). apply in_map, Hfb0.
       - rewrite <- A1, En, B2, B1. reflexivity. }
-    pose proof (fields_run_pf _ _ _ _ _ _ _ _ _ _ _ _ _ _ Hrun) as FP.
+    pose proof (fields_run_pf _ _ _ _ _ _ _ _ _ _ _ _ _ _ _ Hrun) as FP.
     intros x Hx. destruct (flattenM_collect_conv _ _ _ _ _ _ _ _ _ _ _ Hfl Hcol x Hx)
       as [[fn [Hfn Ex]] | [m [fm [km [lm [Hm [Elf [Hcm Hxm]]]]]]]].
     - destruct (Forall2_In_l _ _ _ _ FP Hfn) as [pf [Hpf [ctx Hfp]]].
-      destruct (field_pf_inv _ _ _ _ _ _ _ _ _ _ Hfp) as [t [a0 [il [_ [_ Epf]]]]].
+      destruct (field_pf_inv _ _ _ _ _ _ _ _ _ _ _ Hfp) as [t [a0 [il [_ [_ Epf]]]]].
       apply in_map_iff. exists pf. split; [| apply Hownp; exact Hpf].
       subst pf x. rewrite mk_pfield_key. reflexivity.
     - unfold reach_ok in Hreach.
